@@ -407,4 +407,55 @@ theorem InDomain.small {m : Mapping} (h : InDomain m) : Small m := by
   omega
 
 
+/-! ## the bounded enumeration used by the driver is a prefix of the full one -/
+
+theorem take_range' (s m n : Nat) : (List.range' s m).take n = List.range' s (min m n) := by
+  induction m generalizing s n with
+  | zero => simp
+  | succ m ih =>
+    cases n with
+    | zero => simp
+    | succ n =>
+      rw [List.range'_succ, List.take_succ_cons, ih]
+      have : min (m + 1) (n + 1) = min m n + 1 := by omega
+      rw [this, List.range'_succ]
+
+theorem iter12SegN_eq (lo hi s g n : Nat) : iter12SegN lo hi s g n = (iter12Seg lo hi s g).take n := by
+  unfold iter12SegN iter12Seg
+  rw [← List.map_take, take_range']
+
+theorem iter12Seg_length (lo hi s g : Nat) : (iter12Seg lo hi s g).length = hi - lo := by
+  simp [iter12Seg]
+
+theorem iter12FromN_eq (gs : Array Group) (limits : Limits) :
+    ∀ fuel ix curEnd n, iter12FromN gs limits fuel ix curEnd n = (iter12From gs limits fuel ix curEnd).take n := by
+  intro fuel
+  induction fuel with
+  | zero => intro ix curEnd n; simp [iter12FromN, iter12From]
+  | succ f ih =>
+    intro ix curEnd n
+    unfold iter12FromN iter12From
+    cases group12 gs ix limits with
+    | none => simp
+    | some r =>
+      obtain ⟨lo, hi, s, g⟩ := r
+      simp only
+      rw [List.take_append, iter12Seg_length, iter12SegN_eq, ih]
+      congr 2
+      omega
+
+/-- `iter12N` (what the driver prints for arbitrary, possibly huge, groups) is the first `n` items
+of `iter12` (what the theorems are about) -/
+theorem iter12N_eq_take (gs : Array Group) (limits : Limits) (n : Nat) :
+    iter12N gs limits n = (iter12 gs limits).take n := by
+  unfold iter12N iter12
+  cases group12 gs 0 limits with
+  | none => simp
+  | some r =>
+    obtain ⟨lo, hi, s, g⟩ := r
+    simp only
+    rw [List.take_append, iter12Seg_length, iter12SegN_eq, iter12FromN_eq]
+    congr 2
+    omega
+
 end FontVerif.Cmap
